@@ -90,7 +90,7 @@ def lean_imports(relpath, seen=None):
     return seen
 
 
-def build(prop, tier='quick'):
+def build(prop, tier='quick', use_baseline=False):
     """extract, build the property's targets, audit axioms.  Returns a dict:
        {extract: {area: status}, build_ok, build_log, failed_modules, theorems: {name: [axioms]},
         audit_ok, forbidden: [..], obligations, discharged}"""
@@ -100,7 +100,11 @@ def build(prop, tier='quick'):
     try:
         res = {}
         from extract import run as extract_run
-        res['extract'] = extract_run.main(list(getattr(prop, 'EXTRACT', [])))
+        if use_baseline:
+            res['baseline_restored'] = extract_run.restore_baseline(list(getattr(prop, 'EXTRACT', [])))
+            res['extract'] = {a: 'baseline' for a in res['baseline_restored']}
+        else:
+            res['extract'] = extract_run.main(list(getattr(prop, 'EXTRACT', [])))
         targets = list(prop.LEAN_TARGETS)
         if getattr(prop, 'DRIVER', None):
             targets.append(prop.DRIVER[:-5].replace('/', '.'))
@@ -253,7 +257,6 @@ def main(prop, argv):
         print(f'INFRA property={pid} audit: forbidden tokens {b["forbidden"]} foreign axioms {b["foreign_axioms"]}')
         return 2
     extract_bad = {a: s for a, s in b['extract'].items() if s != 'ok'}
-    proof_ok = b['build_ok'] and b['audit_ok'] and b['discharged'] == b['obligations'] and not extract_bad
     broken = []
     if extract_bad:
         broken += [f'translation of {a}: {s}' for a, s in extract_bad.items()]
@@ -261,10 +264,31 @@ def main(prop, argv):
         broken.append('lake build failed for: ' + ', '.join(b['failed_modules']))
     elif not b['audit_ok'] or b['discharged'] != b['obligations']:
         broken.append(f'audit: {b["discharged"]}/{b["obligations"]} theorems present')
+    # Tie 1 (translation regenerated from the source + proofs about it) did not go through.  Fall back to tie 2 of the
+    # brief: the last good translation (harness/extract/baseline, made from the pinned HEAD) is kept as the model, its
+    # proofs are re-checked, and the model is tied to the CURRENT code by an intensified correspondence run.  A harmless
+    # rewrite then passes; a behavioural change shows up as a disagreement or an oracle failure.
+    fallback = False
+    primary_failure = list(broken)
+    first_extract = dict(b['extract'])
+    if broken:
+        try:
+            b2 = build(prop, tier, use_baseline=True)
+        except (subprocess.TimeoutExpired, Infra) as e:
+            print(f'INFRA property={pid} baseline build: {e}')
+            return 2
+        if b2['build_ok'] and b2['audit_ok'] and b2['discharged'] == b2['obligations'] and b2['driver_ok'] \
+                and not (b2['forbidden'] or b2['foreign_axioms']) and getattr(prop, 'DRIVER', None):
+            fallback = True
+            b = b2
+            b['extract'] = first_extract
+            broken = []
+        else:
+            broken.append('the baseline model does not build either')
 
     rng = random.Random(f'{pid}:{seed}:{tier}')
-    budget = prop.BUDGET[tier]
-    deadline = t0 + (getattr(prop, 'TIME', {}).get(tier) or (100 if tier == 'quick' else 900))
+    budget = prop.BUDGET[tier] * (3 if fallback else 1)
+    deadline = time.time() + (getattr(prop, 'TIME', {}).get(tier) or (100 if tier == 'quick' else 900)) * (2 if fallback else 1)
 
     known_lines = []
     stats = {'evaluations': 0, 'labels': {}, 'nontrivial': set(), 'known_instances': {}, 'model_compared': 0}
@@ -351,6 +375,8 @@ def main(prop, argv):
     replay_path = None
     if not concrete and (broken or diffs):
         # the tie is broken: look for a concrete failing input on the real code
+        if fallback:
+            broken += primary_failure
         if diffs:
             broken.append(f'correspondence: model and implementation differ on {len(diffs)} of '
                           f'{stats["model_compared"]} cases; first: {diffs[0][3][:3]}')
@@ -426,6 +452,7 @@ def main(prop, argv):
             'search_cases': stats.get('search_cases', 0),
             'exhaustive': bool(getattr(prop, 'EXHAUSTIVE', False)),
             'tie_broken': broken,
+            'tie': ('correspondence-only: ' + '; '.join(primary_failure))[:1500] if fallback else 'translation regenerated from the current source + correspondence',
         },
         'assumptions': list(getattr(prop, 'ASSUMPTIONS', [])),
         'wall_s': round(wall, 2),
@@ -436,6 +463,9 @@ def main(prop, argv):
     os.makedirs(os.path.join(VERIF, 'evidence'), exist_ok=True)
     with open(os.path.join(VERIF, 'evidence', f'{pid}.json'), 'w') as f:
         json.dump(ev, f, indent=1, sort_keys=True, default=str)
+    if fallback and not verdict:
+        print(f'NOTE property={pid} the translator/proofs could not follow the current source ({"; ".join(primary_failure)[:300]}); '
+              f'the baseline model was kept and agrees with the implementation on all {stats["model_compared"]} compared cases')
     print(f'{pid} tier={tier} seed={seed} evaluations={stats["evaluations"]} compared={stats["model_compared"]} '
           f'theorems={b["discharged"]}/{b["obligations"]} verdict={"VIOLATION" if verdict else "ok"} wall={wall:.1f}s')
     return verdict
